@@ -48,6 +48,10 @@ pub mod api {
         fn exit(&mut self, code: i32);
         /// one step of work; returning `true` unwinds with [`StepBudgetExceeded`]
         fn tick(&mut self) -> bool;
+        /// `std::env::vars_os` / `std::env::vars`: the whole environment
+        fn vars_os(&mut self) -> Vec<(OsString, OsString)> {
+            Vec::new()
+        }
         /// `true` drops the output of the print macros unformatted (used while a harness only
         /// wants the verdict of `check_invariants`, whose debug dump is large)
         fn mute(&mut self) -> bool {
@@ -126,6 +130,27 @@ pub(crate) mod std {
                 Some(v) => v,
                 None => ::std::env::var_os(key),
             }
+        }
+
+        pub fn var<K: AsRef<OsStr>>(key: K) -> Result<String, VarError> {
+            match var_os(key) {
+                Some(s) => s.into_string().map_err(VarError::NotUnicode),
+                None => Err(VarError::NotPresent),
+            }
+        }
+
+        pub fn vars_os() -> ::std::vec::IntoIter<(OsString, OsString)> {
+            match crate::verif::api::with(|w| w.vars_os()) {
+                Some(v) => v.into_iter(),
+                None => ::std::env::vars_os().collect::<Vec<_>>().into_iter(),
+            }
+        }
+
+        pub fn vars() -> ::std::vec::IntoIter<(String, String)> {
+            vars_os()
+                .filter_map(|(k, v)| Some((k.into_string().ok()?, v.into_string().ok()?)))
+                .collect::<Vec<_>>()
+                .into_iter()
         }
 
         pub fn args_os() -> ::std::vec::IntoIter<OsString> {
